@@ -61,8 +61,24 @@ func c16LinearXs(min, max float64) []float64 {
 
 var c16Ys = []float64{-5, -1, 0, 0.25, 0.5, 1, 2, 5}
 
+// c16Linear checks the Linear scale with the domain of the case, built in several
+// ways: Map/Unmap depend on Min, Max and Clamp only.
 func c16Linear(c *C16Case, r *core.Rec) {
-	s := scale.Linear{Min: c.Min, Max: c.Max}
+	c16LinearOne(c, scale.Linear{Min: c.Min, Max: c.Max}, true, r)
+	for _, base := range []int{2, 7, 10} {
+		c16LinearOne(c, scale.Linear{Min: c.Min, Max: c.Max, Base: base}, false, r)
+	}
+	// used and niced on another domain, then re-pointed at this one
+	l := scale.Linear{Min: 0.3, Max: 47}
+	l.Map(10)
+	l.Nice(scale.TickOptions{Max: 5})
+	l.Ticks(scale.TickOptions{Max: 5})
+	l.Unmap(0.25)
+	l.Min, l.Max = c.Min, c.Max
+	c16LinearOne(c, l, false, r)
+}
+
+func c16LinearOne(c *C16Case, s scale.Linear, primary bool, r *core.Rec) {
 	if c.Min == c.Max {
 		for _, x := range []float64{c.Min, c.Min - 1, c.Min + 1e9, 0, -1e300} {
 			for _, cl := range []bool{false, true} {
@@ -74,7 +90,9 @@ func c16Linear(c *C16Case, r *core.Rec) {
 		}
 		return
 	}
-	r.NT()
+	if primary {
+		r.NT()
+	}
 	rmin, rw := ref.R(c.Min), ref.Sub(ref.R(c.Max), ref.R(c.Min))
 	width := math.Abs(c.Max - c.Min)
 	if a, b := s.Map(c.Min), s.Map(c.Max); a != 0 || b != 1 {
@@ -160,8 +178,37 @@ func c16LogXs(min, max float64) []float64 {
 	return xs
 }
 
+// c16Log checks the Log scale with the domain of the case, built in several ways:
+// Map/Unmap do not depend on the tick base, nor on how the value came about.
 func c16Log(c *C16Case, r *core.Rec) {
-	s := scale.Log{Min: c.Min, Max: c.Max, Base: 10}
+	c16LogOne(c, scale.Log{Min: c.Min, Max: c.Max, Base: 10}, "literal base 10", r)
+	for _, base := range []int{2, 3, 7, 12} {
+		c16LogOne(c, scale.Log{Min: c.Min, Max: c.Max, Base: base}, fmt.Sprintf("literal base %d", base), r)
+	}
+	// constructed for another domain (and used, and niced), then re-pointed at this one
+	sgn := 1.0
+	if c.Min < 0 {
+		sgn = -1
+	}
+	for _, base := range []int{10, 5} {
+		if l, err := scale.NewLog(sgn*1, sgn*100, base); err == nil {
+			l.Map(sgn * 10)
+			l.Unmap(0.5)
+			l.Min, l.Max = c.Min, c.Max
+			c16LogOne(c, l, fmt.Sprintf("NewLog(%v,%v,%d) then Min,Max assigned", sgn*1, sgn*100, base), r)
+		} else {
+			r.Fail("newlog-history", "NewLog(%v,%v,%d): %v", sgn*1, sgn*100, base, err)
+		}
+		if l, err := scale.NewLog(sgn*0.3, sgn*47, base); err == nil {
+			l.Nice(scale.TickOptions{Max: 5})
+			l.Map(sgn * 10)
+			l.Min, l.Max = c.Min, c.Max
+			c16LogOne(c, l, fmt.Sprintf("NewLog(%v,%v,%d), Nice, then Min,Max assigned", sgn*0.3, sgn*47, base), r)
+		}
+	}
+}
+
+func c16LogOne(c *C16Case, s scale.Log, how string, r *core.Rec) {
 	sign := 1.0
 	if c.Min < 0 {
 		sign = -1
@@ -171,7 +218,7 @@ func c16Log(c *C16Case, r *core.Rec) {
 		for _, cl := range []bool{false, true} {
 			s.SetClamp(cl)
 			if y := s.Map(x); !math.IsNaN(y) {
-				r.Fail("log-NaN", "Log{%v,%v} clamp=%v: Map(%v)=%v want NaN", c.Min, c.Max, cl, x, y)
+				r.Fail("log-NaN", "Log{%v,%v} ("+how+")"+" clamp=%v: Map(%v)=%v want NaN", c.Min, c.Max, cl, x, y)
 			}
 		}
 	}
@@ -179,14 +226,16 @@ func c16Log(c *C16Case, r *core.Rec) {
 	if c.Min == c.Max {
 		for _, x := range []float64{c.Min, c.Min * 2, sign * 1e-300, sign * 1e300} {
 			if y := s.Map(x); y != 0.5 {
-				r.Fail("log-degenerate", "Log{%v,%v}.Map(%v)=%v want 0.5", c.Min, c.Max, x, y)
+				r.Fail("log-degenerate", "Log{%v,%v} ("+how+")"+".Map(%v)=%v want 0.5", c.Min, c.Max, x, y)
 			}
 		}
 		return
 	}
-	r.NT()
+	if how == "literal base 10" {
+		r.NT()
+	}
 	if a, b := s.Map(c.Min), s.Map(c.Max); a != 0 || b != 1 {
-		r.Fail("log-ends", "Log{%v,%v}: Map(Min)=%v Map(Max)=%v", c.Min, c.Max, a, b)
+		r.Fail("log-ends", "Log{%v,%v} ("+how+")"+": Map(Min)=%v Map(Max)=%v", c.Min, c.Max, a, b)
 	}
 	lmin, lmax := bigLog(math.Abs(c.Min)), bigLog(math.Abs(c.Max))
 	den := new(big.Float).SetPrec(320).Sub(lmax, lmin)
@@ -205,7 +254,7 @@ func c16Log(c *C16Case, r *core.Rec) {
 		y, edge := s.Map(x), s.Map(sign*0x1p-1022)
 		r.Trans(1)
 		if math.IsNaN(y) || (c.Max > c.Min) != (sign > 0) && y < edge || (c.Max > c.Min) == (sign > 0) && y > edge {
-			r.Fail("log-subnormal", "Log{%v,%v}.Map(%v)=%v (non-zero value of the right sign; Map(2^-1022)=%v)", c.Min, c.Max, x, y, edge)
+			r.Fail("log-subnormal", "Log{%v,%v} ("+how+")"+".Map(%v)=%v (non-zero value of the right sign; Map(2^-1022)=%v)", c.Min, c.Max, x, y, edge)
 		}
 	}
 	type pt struct{ x, y float64 }
@@ -217,7 +266,7 @@ func c16Log(c *C16Case, r *core.Rec) {
 		num := new(big.Float).SetPrec(320).Sub(bigLog(math.Abs(x)), lmin)
 		want := ref.ToF(num.Quo(num, den))
 		if !r.Err("log-map", math.Abs(y-want), (1e-12+condOf(x))*(1+math.Abs(want))) {
-			r.Fail("log-map", "Log{%v,%v}.Map(%v)=%v, exact %v", c.Min, c.Max, x, y, want)
+			r.Fail("log-map", "Log{%v,%v} ("+how+")"+".Map(%v)=%v, exact %v", c.Min, c.Max, x, y, want)
 		}
 		pts = append(pts, pt{x, y})
 		if ax := math.Abs(x); ax < 1e-290 || ax > 1e290 {
@@ -225,7 +274,7 @@ func c16Log(c *C16Case, r *core.Rec) {
 		}
 		back := s.Unmap(y)
 		if !r.Err("log-roundtrip", math.Abs(back-x)/math.Abs(x), 1e-12) {
-			r.Fail("log-roundtrip", "Log{%v,%v}: Unmap(Map(%v))=%v", c.Min, c.Max, x, back)
+			r.Fail("log-roundtrip", "Log{%v,%v} ("+how+")"+": Unmap(Map(%v))=%v", c.Min, c.Max, x, back)
 		}
 	}
 	// strictly monotone in x
@@ -236,7 +285,7 @@ func c16Log(c *C16Case, r *core.Rec) {
 			continue // lattice points that coincide up to rounding (a*(b/a)^1 vs b)
 		}
 		if (incr && !(pts[i].y > pts[i-1].y)) || (!incr && !(pts[i].y < pts[i-1].y)) {
-			r.Fail("log-monotone", "Log{%v,%v}: Map(%v)=%v, Map(%v)=%v", c.Min, c.Max, pts[i-1].x, pts[i-1].y, pts[i].x, pts[i].y)
+			r.Fail("log-monotone", "Log{%v,%v} ("+how+")"+": Map(%v)=%v, Map(%v)=%v", c.Min, c.Max, pts[i-1].x, pts[i-1].y, pts[i].x, pts[i].y)
 		}
 	}
 	for _, y := range c16Ys {
@@ -247,10 +296,10 @@ func c16Log(c *C16Case, r *core.Rec) {
 		e.Add(e, lmin)
 		want := sign * ref.ToF(ref.Exp(e))
 		if !r.Err("log-unmap", math.Abs(x-want)/math.Abs(want), 1e-12) {
-			r.Fail("log-unmap", "Log{%v,%v}.Unmap(%v)=%v, exact %v", c.Min, c.Max, y, x, want)
+			r.Fail("log-unmap", "Log{%v,%v} ("+how+")"+".Unmap(%v)=%v, exact %v", c.Min, c.Max, y, x, want)
 		}
 		if yy := s.Map(x); !r.Err("log-map-unmap", math.Abs(yy-y), (1e-12+2*condOf(x))*(1+math.Abs(y))) {
-			r.Fail("log-map-unmap", "Log{%v,%v}: Map(Unmap(%v))=%v", c.Min, c.Max, y, yy)
+			r.Fail("log-map-unmap", "Log{%v,%v} ("+how+")"+": Map(Unmap(%v))=%v", c.Min, c.Max, y, yy)
 		}
 	}
 	for step, cl := range []bool{true, false, true} {
@@ -262,7 +311,7 @@ func c16Log(c *C16Case, r *core.Rec) {
 				want = math.Min(1, math.Max(0, p.y))
 			}
 			if !eqF(y, want) {
-				r.Fail("log-clamp", "Log{%v,%v} step %d clamp=%v: Map(%v)=%v want %v", c.Min, c.Max, step, cl, p.x, y, want)
+				r.Fail("log-clamp", "Log{%v,%v} ("+how+")"+" step %d clamp=%v: Map(%v)=%v want %v", c.Min, c.Max, step, cl, p.x, y, want)
 			}
 		}
 	}
